@@ -243,7 +243,6 @@ func runIbbw(r *common.Run, cfg string, ops []string, class string) {
 					evs = append(evs, "w"+common.B(e.err == nil))
 				case 'k':
 					evs = append(evs, "k"+common.B(e.err == nil))
-					ended = true
 				}
 			default:
 				return got
@@ -320,7 +319,9 @@ func runIbbw(r *common.Run, cfg string, ops []string, class string) {
 			if accepted > delivered {
 				r.Fail("outcome", "ibb-read-waits-although-data-was-delivered:"+op[:min(2, len(op))], line(), fmt.Sprintf("%d Read call(s) still wait; %d bytes were accepted from the peer, %d handed to Read calls", w, accepted, delivered))
 			}
-			if ended {
+			// (a second Close returns at once while the first still waits for its reply: the stream
+			// has ended when no Close call is left)
+			if ended || (returned[2] > 0 && started[2] == returned[2]) {
 				r.Fail("outcome", "ibb-read-waits-after-the-stream-ended:"+op[:1], line(), fmt.Sprintf("%d Read call(s) still wait although the stream has been closed", w))
 			}
 		}
